@@ -35,7 +35,11 @@
 (*    be treated as exact entry or as range                                *)
 (*  - several ".." entries: any of them                                    *)
 (*  - an open end whose neighbour is "..": resolved against the type limit *)
-(*    or against the next entry behind the ".."; or rejected               *)
+(*    or against the next entry behind the ".." run.  Rejecting is only    *)
+(*    admissible when the entry behind the ".." run has its facing end     *)
+(*    open too ("7..", "..", "..9": mutually dependent through the "..");  *)
+(*    "7..", ".." at the array end or in front of a closed end is a well-  *)
+(*    formed DSP0004 array and must yield a table                          *)
 (*  - mutually dependent adjacent open ends ("1..", "..5"): malformed;     *)
 (*    ModelError/ValueError expected, a table is tolerated (only foreign   *)
 (*    exceptions and invented strings are rejected then)                   *)
@@ -70,6 +74,13 @@ Malformed(e) ==
   \/ (Len(e.vals) # Len(EffMap(e)) /\ ~e.hasdflt)
 
 (* ---- resolution of open ends ------------------------------------------- *)
+(* nearest entry that is not the unclaimed marker, looking left / right    *)
+(* from position j (0 resp. Len(m)+1 = array end reached)                  *)
+RECURSIVE PrevNonU(_, _)
+PrevNonU(m, j) == IF j = 0 \/ m[j].k # "U" THEN j ELSE PrevNonU(m, j - 1)
+RECURSIVE NextNonU(_, _)
+NextNonU(m, j) == IF j > Len(m) \/ m[j].k # "U" THEN j ELSE NextNonU(m, j + 1)
+
 (* admissible lower bounds of an entry at position i whose low end is open, *)
 (* decided by the neighbour i-1; {} = mutually dependent                    *)
 RECURSIVE LoOpts(_, _, _)
@@ -189,10 +200,25 @@ RoundTripOK(vals, e) ==
         \/ b.k = "R" /\ b.lo <= g.lo /\ g.hi <= b.hi
 
 (* ---- vectors on which rejecting is (also) admissible --------------------- *)
+(* an open end next to ".." (every such array is in the universe; used to  *)
+(* select vectors, not a verdict)                                          *)
+OpenNextToU(m) ==
+  \E i \in DOMAIN m : /\ m[i].k = "R"
+                      /\ \/ m[i].lopen /\ i > 1 /\ m[i - 1].k = "U"
+                         \/ m[i].hopen /\ i < Len(m) /\ m[i + 1].k = "U"
+(* ... whose ".." run hides another open end facing it *)
+FacingThroughU(m) ==
+  \E i \in DOMAIN m :
+     /\ m[i].k = "R"
+     /\ \/ /\ m[i].lopen /\ i > 1 /\ m[i - 1].k = "U"
+           /\ LET j == PrevNonU(m, i - 1) IN
+              j >= 1 /\ (m[j].k = "BAD" \/ (m[j].k = "R" /\ m[j].hopen))
+        \/ /\ m[i].hopen /\ i < Len(m) /\ m[i + 1].k = "U"
+           /\ LET j == NextNonU(m, i + 1) IN
+              j <= Len(m) /\ (m[j].k = "BAD" \/ (m[j].k = "R" /\ m[j].lopen))
+
 Dubious(m, e) ==
-  \/ \E i \in DOMAIN m : /\ m[i].k = "R"
-                         /\ \/ m[i].lopen /\ i > 1 /\ m[i - 1].k = "U"
-                            \/ m[i].hopen /\ i < Len(m) /\ m[i + 1].k = "U"
+  \/ FacingThroughU(m)
   \/ (Len(m) >= 1 /\ \A i \in DOMAIN m : m[i].k = "U")
   \/ \E i \in DOMAIN m : m[i].k = "R" /\ ~m[i].lopen /\ ~m[i].hopen
                          /\ m[i].lo > m[i].hi
